@@ -266,6 +266,28 @@ func init() {
 		e.block(g, "vfWaitFor", test, func() { c.finish(nil) })
 		return nil, callBlocked
 	}
+	vfIntrinsics["vfIdle"] = func(c *callCtx, a []Value) (Value, callStatus) {
+		// blocks until no other goroutine can run: models "time passes" (a timer
+		// fires) only when the program is quiescent
+		e, g := c.e, c.g
+		g.idleWaiter = true
+		quiet := func() bool {
+			for _, o := range e.gs {
+				if o == g || o.idleWaiter {
+					continue
+				}
+				if o.status == gRunnable {
+					return false
+				}
+				if o.status == gBlocked && o.ready != nil && o.ready() {
+					return false
+				}
+			}
+			return true
+		}
+		e.block(g, "vfIdle", quiet, func() { g.idleWaiter = false; c.finish(nil) })
+		return nil, callBlocked
+	}
 	vfIntrinsics["vfSymbolic"] = func(c *callCtx, a []Value) (Value, callStatus) {
 		return Bool(!c.e.opts.Concrete && c.e.opts.ForcedModel == nil), callDone
 	}
